@@ -95,8 +95,28 @@ func (o *sessionTracker) RemoteLogin(rul common.RemoteUserLogin) error {
 			// since it's thread-safe (i.e., it's a pointer).
 			u.setRemoteUserLoginInfo(rul)
 
+			// The session may already be over: all of its events,
+			// including the final AUDIT_CRED_DISP, can arrive before
+			// the login does.
+			sessionEnded := false
+			for _, cachedEvent := range u.cached {
+				if cachedEvent.Type == auparse.AUDIT_CRED_DISP {
+					sessionEnded = true
+					break
+				}
+			}
+
 			found = true
 			writeErr = u.writeAndClearCache(o.eventWriter)
+
+			if sessionEnded {
+				// Release the ended session, just like
+				// auditEventWithSession does, so that a later
+				// login from a process that reuses the PID is
+				// not bound to it. Iterate holds the lock.
+				o.sessIDsToUsers.DeleteUnsafe(asi)
+			}
+
 			// stop iteration
 			return false
 		}
